@@ -31,6 +31,7 @@ use sha1::Digest;
 pub use self::datetime::format_date;
 pub use self::datetime::format_datetime;
 pub use self::datetime::parse_datetime;
+pub use self::datetime::system_time_to_local;
 pub use self::datetime::to_local_datetime;
 pub use self::glob::convert_glob_to_pattern;
 pub use self::glob::convert_like_to_pattern;
